@@ -345,6 +345,34 @@ int __wrap_dup(int fd) {
     return r;
 }
 
+/* fcntl(F_DUPFD / F_DUPFD_CLOEXEC) is dup() by another name: the copy must be known to the seam, or reads and
+ * writes on it would bypass it (no faults, no epoch bumps: a waiter in another thread would never be re-polled) */
+#include <stdarg.h>
+extern int __real_fcntl(int, int, ...);
+extern int __real_fcntl64(int, int, ...);
+static int fcntl_common(int which, int fd, int cmd, long arg) {
+    int r = which ? __real_fcntl64(fd, cmd, arg) : __real_fcntl(fd, cmd, arg);
+    if (r >= 0 && sim_cfg.active && (cmd == F_DUPFD || cmd == F_DUPFD_CLOEXEC) && tracked(fd) && r < MAX_FD) {
+        note_open(r, fdt[fd].kind);
+        fdt[r].dgram = fdt[fd].dgram;
+    }
+    return r;
+}
+int __wrap_fcntl(int fd, int cmd, ...) {
+    va_list ap;
+    va_start(ap, cmd);
+    long arg = va_arg(ap, long);
+    va_end(ap);
+    return fcntl_common(0, fd, cmd, arg);
+}
+int __wrap_fcntl64(int fd, int cmd, ...) {
+    va_list ap;
+    va_start(ap, cmd);
+    long arg = va_arg(ap, long);
+    va_end(ap);
+    return fcntl_common(1, fd, cmd, arg);
+}
+
 int __wrap_dup2(int fd, int nfd) {
     if (sim_cfg.active && tracked(nfd)) sim_fd_note_close(nfd);
     int r = __real_dup2(fd, nfd);
